@@ -6,7 +6,7 @@
 From Coq Require Import ZArith QArith String List Bool Permutation.
 Import ListNotations.
 From VTL Require Import Base.Val Model.Table Model.Scalar Model.Expr Model.SetOps
-     Proofs.TableP Proofs.MonadP Proofs.ExprP Proofs.SetOpsP Proofs.PermP.
+     Proofs.TableP Proofs.MonadP Proofs.ExprP Proofs.SetOpsP Proofs.PermP Proofs.SubPermP.
 
 (* every expression built from dataset∘dataset operators, the set operators union / intersect / setdiff / symdiff (DSet, with
    the second operand aligned by name), element-wise operators and the clauses filter / calc / keep / drop / rename: if the environments hold the same datapoints in any order, evaluation succeeds on both or neither and
@@ -21,6 +21,29 @@ Theorem C33_sub_order_independent_partial : forall d fixed rows',
   Permutation (d_rows d) rows' ->
   Permutation (d_rows (d_sub d fixed)) (d_rows (d_sub (mkD (d_ids d) (d_ms d) rows') fixed)).
 Proof. exact d_sub_perm. Qed.
+
+(* sub applied LAST (once, or a chain of subs) on top of any expression of the theorem above: order independent with no further
+   hypothesis — only a sub NESTED under another operator remains outside the composite statement *)
+Theorem C33_sub_on_top_order_independent : forall x l, no_sub x = true ->
+  forall e e' r, env_equiv e e' -> deval e (DSub x l) = Ok r ->
+  exists r', deval e' (DSub x l) = Ok r' /\ dequiv r r'.
+Proof. exact deval_sub_top_perm. Qed.
+
+Theorem C33_sub_chain_on_top_order_independent : forall x ls, no_sub x = true ->
+  forall e e' r, env_equiv e e' -> deval e (subs x ls) = Ok r ->
+  exists r', deval e' (subs x ls) = Ok r' /\ dequiv r r'.
+Proof. exact deval_sub_chain_perm. Qed.
+
+Example C33_sub_on_top_nonvacuous :
+  let A := mkD ["Id_1"; "Id_2"]%string ["Me_1"%string] [([VInt 1; VStr "A"], [VInt 6]); ([VInt 2; VStr "A"], [VInt 5]); ([VInt 2; VStr "B"], [VInt 4])] in
+  let A' := mkD ["Id_1"; "Id_2"]%string ["Me_1"%string] [([VInt 2; VStr "B"], [VInt 4]); ([VInt 2; VStr "A"], [VInt 5]); ([VInt 1; VStr "A"], [VInt 6])] in
+  let x := DBin Add (DVar "A") (DVar "A") in
+  no_sub x = true /\
+  deval [("A"%string, A)] (DSub x [("Id_2"%string, VStr "A")])
+    = Ok (mkD ["Id_1"%string] ["Me_1"%string] [([VInt 1], [VInt 12]); ([VInt 2], [VInt 10])]) /\
+  deval [("A"%string, A')] (DSub x [("Id_2"%string, VStr "A")])
+    = Ok (mkD ["Id_1"%string] ["Me_1"%string] [([VInt 2], [VInt 10]); ([VInt 1], [VInt 12])]).
+Proof. vm_compute. repeat split. Qed.
 
 (* errors do not depend on the order either: an evaluation that fails on some datapoint fails for every order *)
 Theorem C33_error_order_independent : forall {A B} (f : A -> res B) l l' c,
@@ -50,3 +73,5 @@ Print Assumptions C33_expression_order_independent.
 Print Assumptions C33_sub_order_independent_partial.
 Print Assumptions C33_error_order_independent.
 Print Assumptions C33_set_operators_order_independent.
+Print Assumptions C33_sub_on_top_order_independent.
+Print Assumptions C33_sub_chain_on_top_order_independent.
